@@ -37,8 +37,13 @@ def run_case(case, rec, cid):
     rec.begin(cid)
     for step in case["hist"]:
         if step["op"] == "SetMode":
-            set_mode(step["sp"])
-            rec.ev("SetMode", cid, sp=step["sp"])
+            # through the command line's operator class every other time; the mode it then reports is logged with the event
+            from metomi.isodatetime.datetimeoper import DateTimeOperator
+            if len(rec.events) % 2:
+                DateTimeOperator.set_calendar_mode(step["sp"])
+            else:
+                set_mode(step["sp"])
+            rec.ev("SetMode", cid, sp=step["sp"], rep=str(DateTimeOperator.get_calendar_mode()))
         elif step["op"] == "Query":
             st, v = outcome(lambda: [I(x) for x in QUERIES[step["fn"]](step["a"], step["b"])])
             if st == "ok":
